@@ -156,6 +156,7 @@ where
         handles.push(std::thread::spawn(move || {
             TID.with(|x| x.set(t));
             guard::init();
+            guard::expect_panics_on_this_thread();
             for c in &prog {
                 let r = catch_unwind(AssertUnwindSafe(|| do_call::<F>(&nodes, c)));
                 let (v, stop) = match r {
@@ -388,6 +389,7 @@ where
             let barrier = barrier.clone();
             std::thread::spawn(move || {
                 guard::init();
+                guard::expect_panics_on_this_thread();
                 let mut rng = StdRng::seed_from_u64(seed ^ ((r * 131 + t) as u64).wrapping_mul(0x9e3779b97f4a7c15));
                 let mut connects = vec![];
                 barrier.wait();
